@@ -16,6 +16,10 @@ def _lit(rnd, rich=True):
     r = rnd.random()
     if not rich:
         return M.lit("s%d" % rnd.randint(0, 4)) if r < .6 else M.lit(str(rnd.randint(0, 4)), M.XSD_INTEGER)
+    if r < .03:
+        return M.lit("")                                   # the empty string is a literal too
+    if r < .06:                                            # line boundaries for str.splitlines(), not for N-Triples (those that XML 1.0 can carry: every channel must deliver them)
+        return M.lit("a%sb" % rnd.choice(["\u2028", "\x85", "\u2029"]), lang=rnd.choice([None, None, "en"]))
     if r < .4:
         return M.lit("s%d" % rnd.randint(0, 4))
     if r < .6:
@@ -55,9 +59,14 @@ def general_graph(rnd, max_nodes=7, bnodes=True, rich_literals=True, inst_prop=M
     nn = rnd.randint(2, max_nodes)
     def name(i):      # local names with ':', '.', '-', '_' and a leading digit are legal prefixed-name local parts
         return rnd.choice(["item:%d", "n.%d", "n-%d_x", "%dn"]) % i if (odd_names and rnd.random() < .5) else "n%d" % i
-    nodes = [M.iri(EX + name(i)) if (not bnodes or rnd.random() < 0.78) else M.bnode("b%d" % i) for i in range(nn)]
+    blabel = (lambda i: ["b1", "b12", "b1x", "b", "b120", "n7", "n70"][i]) if rnd.random() < .3 else (lambda i: "b%d" % i)   # labels that are prefixes of one another
+    nodes = [M.iri(EX + name(i)) if (not bnodes or rnd.random() < 0.78) else M.bnode(blabel(i)) for i in range(nn)]
     classes = [EX + "C%d" % i for i in range(rnd.randint(1, 3))]
     props = [EX + "p%d" % i for i in range(rnd.randint(1, 3))]
+    if rich_literals and rnd.random() < .15:      # IRIs are not only ASCII letters: percent-escapes and non-ASCII characters
+        props.append(EX + rnd.choice(["caf%C3%A9", "a\u00f1o", "t\u00eate%20x"]))
+    if rich_literals and rnd.random() < .1:
+        classes.append(EX + rnd.choice(["R%C3%A9al", "Stra\u00dfe"]))
     if rnd.random() < .45:
         props.append(EX2 + "q0")
     if rnd.random() < .2:
